@@ -244,6 +244,7 @@ class World:
         self.delivery_points = 0
         self.sigint_at = set()
         self.sigints_delivered = 0
+        self.kill_after_sigint = None
         self.clock = None
         self.probes = {}
         self.checkpoints_seen = 0
@@ -258,6 +259,11 @@ class World:
             self.sigints_delivered += 1
             self.probe('fault_fired:sigint')
             self.probe('sigint_delivered_at:' + where)
+            if self.kill_after_sigint is not None and self.fs.crash_at is None:
+                # compound fault: the process is killed m file-system ops after the (graceful) SIGINT,
+                # i.e. typically inside the save that the SIGINT triggers at the next checkpoint
+                self.fs.crash_at = self.fs.n_mut + self.kill_after_sigint[0]
+                self.fs.crash_tear = self.kill_after_sigint[1]
             handler = signal.getsignal(signal.SIGINT)
             if callable(handler):
                 handler(signal.SIGINT, None)
@@ -317,6 +323,7 @@ class World:
         fs.crash_tear = None
         fs.error_at = {}
         self.sigint_at = set()
+        self.kill_after_sigint = None
         self.delivery_points = 0
         base = fs.n_mut
         if fault is not None:
@@ -328,6 +335,9 @@ class World:
                 fs.error_at[base + fault['at_op']] = fault['errno']
             elif kind == 'sigint':
                 self.sigint_at = set(fault['at'])
+            elif kind == 'sigint_kill':
+                self.sigint_at = set(fault['at'])
+                self.kill_after_sigint = (fault['kill_after_ops'], fault.get('tear'))
         self.clock = SimClock(clock_seed, self.cfg['clock'], on_read=self._deliver)
         out = {'outcome': None, 'results': None, 'error': None, 'ops_in_segment': 0}
         real_save = h5mod.save
